@@ -401,7 +401,7 @@ def scenarios():
                        ('output.booleanAttributes', ['foo']), ('output.formatSkip', ['html', 'div']), ('output.formatSkip', []), ('output.formatForce', ['body', 'p']),
                        ('output.formatForce', []), ('comment.trigger', ['id']), ('comment.trigger', ['class', 'disabled']), ('markup.attributes', {'class': 'k2', 'foo': 'bar'}),
                        ('markup.attributes', {}), ('markup.valuePrefix', {'class': 'p2'}), ('inlineElements', ['span', 'em'])):
-            steps += [deep('c0', key, v), call('c0', pr), call('c1', pr)]
+            steps += [deep('c0', key, v), call('c0', pr), call('c1', pr), call('c0', pr)]   # (the last look precedes the next edit: one-slot memos)
         scen('option-lists-changed-in-place/markup/%s' % holder, _w([c, o]), steps)
         c = {'id': 'c0', 'holder': holder, 'type': 'stylesheet', 'options': {'stylesheet.keywords': ['auto', 'inherit'], 'stylesheet.unitless': ['z-index', 'zoom'],
                                                                               'stylesheet.unitAliases': {'p': '%', 'e': 'em'}}}
@@ -411,7 +411,7 @@ def scenarios():
         for key, v in (('stylesheet.keywords', ['auto']), ('stylesheet.keywords', []), ('stylesheet.keywords', ['inherit', 'auto', 'all']), ('stylesheet.unitless', ['zoom']),
                        ('stylesheet.unitless', []), ('stylesheet.unitless', ['z-index', 'zoom', 'line-height']), ('stylesheet.unitAliases', {'p': 'pt'}),
                        ('stylesheet.unitAliases', {}), ('stylesheet.unitAliases', {'p': '%', 'e': 'ex', 'x': 'vw'})):
-            steps += [deep('c0', key, v), call('c0', pr), call('c1', pr)]
+            steps += [deep('c0', key, v), call('c0', pr), call('c1', pr), call('c0', pr)]   # (the last look precedes the next edit: one-slot memos)
         scen('option-lists-changed-in-place/stylesheet/%s' % holder, _w([c, o]), steps)
 
     # 3c. option flip under failure: for every documented option / variable / snippet with a known visible effect
